@@ -104,4 +104,15 @@ theorem C07_skeleton_validSignature :
     Sso.Generated.skel_auth_validSignature = ["if{", "return", "}", "call:Parse", "if{", "return", "}", "call:DecodeString", "if{", "return", "}", "call:ParseInt", "if{", "return", "}", "call:Unix", "call:Now", "call:Sub", "if{", "return", "}", "call:redirectURLSignature", "call:Equal", "return"] ∧
     Sso.Generated.skel_auth_validateSignature = ["func{", "call:ParseForm", "if{", "call:Error", "call:ErrorResponse", "return", "}", "call:Get", "call:Get", "call:Get", "call:validSignature", "if{", "call:ErrorResponse", "return", "}", "call:f", "}", "return"] := by decide
 
+/-- Tie (T1): the redirect-URI predicate and its middleware — call/branch/store skeletons regenerated from the source on every run; the expectations below are
+what the model in this file transliterates. A structural edit of any of these functions breaks this theorem and sends the
+check searching for a failing input. -/
+theorem C07_wiring :
+    Sso.Generated.skel_auth_validRedirectURI =
+      ["call:Parse", "if{", "return", "}", "call:Hostname", "call:ContainsAny", "if{", "return", "}", "range{", "call:Hostname", "call:HasSuffix", "call:Hostname", "call:TrimLeft", "if{", "return", "}", "}", "return"] ∧
+    Sso.Generated.skel_auth_validateRedirectURI =
+      ["func{", "call:GetActionTag", "call:Sprintf", "call:ParseForm", "if{", "call:Error", "call:ErrorResponse", "return", "}", "call:Get", "call:validRedirectURI", "if{", "call:append", "call:Incr", "call:ErrorResponse", "return", "}", "call:f", "}", "return"] ∧
+    Sso.Generated.skel_auth_redirectURLSignature =
+      ["call:?", "call:New", "call:?", "call:Write", "call:Unix", "call:Sprint", "call:?", "call:Write", "call:Sum", "return"] := by decide
+
 end Sso.AuthN
